@@ -16,10 +16,12 @@ RULE = ("past dense-time formulas (predicates, Boolean, unbounded and bounded on
         "signals of 2..7 samples starting at 0 with a common end; all chunkings at the distinct time stamps up to 64 per case, "
         "else 12 random ones + the two extremes. distinct by (spec, signals, chunking); non-trivial when the covered step "
         "function is not constant +-inf and at least two updates return samples.")
-EXPLANATION = ("dense M-spec rhoD; theorems: see DESIGN §C05 (causality of past formulas; chunk homomorphism of the scan-type "
-               "operations). Correspondence: every chunking of the real online monitor vs rhoD on the covered interval.")
-ASSUMPTIONS = ["the region explored is the complement of the known findings listed for C05 (dense online binary operators across "
-               "batch boundaries, bounded operators across batch boundaries, since)"]
+EXPLANATION = ("theorems: causality of past formulas on rhoD; on the mirror of the online operation classes (Rtamt/Dense/AlgOn.lean) "
+               "C05_online_mirror_partial (every chunking: the concatenated output is rhoD where it is defined), "
+               "C05_online_total_partial, C05_chunkings_agree_partial. Correspondence: every chunking of the real online monitor vs "
+               "the mirror (every returned list) and vs rhoD on the covered interval; modular = inlined under the chunkings.")
+ASSUMPTIONS = ["signals start at 0 (F37 is a finding of C04); no region of C05 is excluded by a known finding (F21 = F32, F30, F44, F48 "
+               "were repaired)"]
 
 
 TRUSTED_EXTRA = ["the mirror of the dense online operation classes (lean/Rtamt/Dense/AlgOn.lean) is hand-written: it is tied to rtamt/semantics/stl/dense_time/online/*.py and rtamt/semantics/arithmetic/dense_time/online/*.py by comparing every list every update() returns, not by a translator; the interpreter's name-keyed operator dictionary is a state tree in the mirror"]
@@ -191,7 +193,7 @@ def gen_case(rng):
         a2, b2 = tb()
         nest = ("tb1", rng.choice(["once", "hist"]), a1, b1, ("tb1", rng.choice(["once", "hist"]), a2, b2, inner))
         other = ("v", rng.choice(D.VARS[:2])) if rng.random() < 0.7 else g.formula(1)
-        op = rng.choice(["and", "or", "implies", "add", "sub", "ge", "le"])
+        op = rng.choice(["and", "or", "implies", "iff", "xor", "add", "sub", "mul", "ge", "le", "eq"])
         f = ("b", op, nest, other) if rng.random() < 0.6 else ("b", op, other, nest)
         vs = F.variables(f)
         # samples on the grid the bounds live on (a sample exactly one window width after another one), runs and plateaus
@@ -281,10 +283,11 @@ def replay(ctx, obj):
 def modular_stream(ctx, rng, count):
     """Specifications with sub-specifications (a name is visited once per reference in every update) under the chunkings: the
     concatenated output of the modular monitor against that of the monitor of the inlined specification fed the same way."""
-    allow = D.DENSE_ON - {"since", "bsince"}
+    allow = D.DENSE_ON
     for case in D.modular_cases(ctx, rng, count, allow):
         case["monitor"] = "onc"
-        if any(g[0] in ("t2", "tb2") or (g[0] in ("t1", "tb1") and g[1] in ("ev", "alw")) for nm, b in case["defs"] for g in F.subformulas(b)):
+        if any((g[0] in ("t2", "tb2") and g[1] != "since") or (g[0] in ("t1", "tb1") and g[1] in ("ev", "alw"))
+               for nm, b in case["defs"] for g in F.subformulas(b)):
             continue
         sig = {v: D.gen_signal(rng, 0, nmax=rng.choice([3, 4, 6])) for v in case["vars"]}
         end = max(s_[-1][0] for s_ in sig.values())
@@ -341,7 +344,7 @@ def check_modular_chunking(case, cuts):
 
 
 def run(ctx):
-    explore(ctx, ctx.subrng("on-c"), ctx.budget(400, 3000))
+    explore(ctx, ctx.subrng("on-c"), ctx.budget(560, 3600))
     if not ctx.violations:
         modular_stream(ctx, ctx.subrng("on-c/modular"), ctx.budget(60, 500))
 
